@@ -8,8 +8,10 @@ import (
 	"crypto"
 	"crypto/ecdsa"
 	"crypto/ed25519"
+	"crypto/elliptic"
 	"crypto/rsa"
 	"crypto/sha256"
+	"crypto/sha512"
 	"crypto/x509"
 	"encoding/binary"
 	"errors"
@@ -270,6 +272,31 @@ func ParseDigitallySigned(b []byte) (*DigitallySigned, error) {
 // ECDSA (3) or RSA PKCS#1 v1.5 (1), the two algorithms RFC 6962 §2.1.4 allows;
 // Ed25519 (7, hash Intrinsic=8... the repo uses SHA-256 code 4 with sig 7) is accepted for Ed25519 keys.
 func VerifyDS(pub crypto.PublicKey, msg []byte, d *DigitallySigned) error {
+	if k, ok := pub.(*ecdsa.PublicKey); ok && k.Curve != elliptic.P256() {
+		// A key RFC 6962 does not provide for (a larger curve): the RFC fixes no hash for it, so the signature is
+		// judged the way TLS judges a DigitallySigned - by the algorithms its own header declares (RFC 5246 §4.7).
+		if d.SigAlg != 3 {
+			return fmt.Errorf("signature algorithm %d for ECDSA key", d.SigAlg)
+		}
+		var digest []byte
+		switch d.HashAlg {
+		case 4:
+			h := sha256.Sum256(msg)
+			digest = h[:]
+		case 5:
+			h := sha512.Sum384(msg)
+			digest = h[:]
+		case 6:
+			h := sha512.Sum512(msg)
+			digest = h[:]
+		default:
+			return fmt.Errorf("hash algorithm %d", d.HashAlg)
+		}
+		if !ecdsa.VerifyASN1(k, digest, d.Sig) {
+			return fmt.Errorf("ECDSA signature does not verify over the digest its header declares (hash algorithm %d)", d.HashAlg)
+		}
+		return nil
+	}
 	if d.HashAlg != 4 {
 		return fmt.Errorf("hash algorithm %d, want SHA-256 (4)", d.HashAlg)
 	}
